@@ -35,23 +35,62 @@ theorem resources_unshared (mark : Bool) (pages : Nat) (calls : List WCall) (w' 
 /-! ## The `/Dests` name array -/
 
 open Wp.PdfNames in
-/-- **names_sorted_partial**: the `/Names` array of `/Dests` has exactly one key per anchor name given (a permutation of
-them), in Python `str` order; and when every name is ASCII the keys — then literal strings holding the names themselves
-— are sorted in the lexical byte order a PDF reader searches a name tree with (PDF 32000-1 7.9.6).
+/-- **names_sorted** (full strength since the repair of finding `dests-names-unsorted`): for *every* list of anchor
+names — ASCII or not — the `/Names` array of `/Dests` has exactly one key per anchor name given (the names in array
+order are a permutation of them), and the keys, as the bytes the written string objects denote (the text itself, or
+`FE FF` + UTF-16BE), are sorted in the lexical byte order a PDF reader searches a name tree with (PDF 32000-1 7.9.6).
+Before the repair this held for ASCII names only (`sorted()` compared code points, not key bytes). -/
+theorem names_sorted (names : List PyStr) :
+    (destOrder names).Perm names ∧ sortedBy lexLe (destKeys names) = true := by
+  refine ⟨pySortedBy_perm keyBytes names, ?_⟩
+  unfold destKeys destOrder
+  rw [map_pySortedBy]
+  exact pySorted_sorted _
 
-Full statement (keys byte-sorted for *all* names): **false of the current code** — `Witness.dests_names_unsorted`:
-a non-ASCII name is written as `<FEFF…>` UTF-16BE, whose bytes do not order like the code points `sorted()` compared
-(known finding `dests-names-unsorted`). -/
-theorem names_sorted_partial (names : List PyStr) :
-    (pySorted names).Perm names ∧ sortedBy lexLe (pySorted names) = true ∧
-    (names.all isAscii = true → sortedBy lexLe (destKeys names) = true) := by
-  refine ⟨pySorted_perm names, pySorted_sorted names, ?_⟩
-  intro h
+open Wp.PdfNames in
+/-- For ASCII names nothing changed: the order is Python's `sorted(pdf_names)` and the keys are the names. -/
+theorem names_sorted_ascii (names : List PyStr) (h : names.all isAscii = true) :
+    destOrder names = pySorted names ∧ destKeys names = pySorted names := by
+  have h1 : destOrder names = pySorted names := pySortedBy_ascii names h
+  refine ⟨h1, ?_⟩
   unfold destKeys
-  rw [map_keyBytes_ascii _ (pySorted_all isAscii names h)]
-  exact pySorted_sorted names
+  rw [h1, map_keyBytes_ascii _ (pySorted_all isAscii names h)]
 
 open Wp.PdfNames in
 example : destKeys [[98], [97, 122], [97]] = [[97], [97, 122], [98]] := by decide
+
+open Wp.PdfNames in
+/-- Non-vacuity on mixed names (`b`, `aé`, `€`, `a`): the ASCII keys come first, then the `FE FF …` keys. -/
+example : destKeys [[98], [97, 233], [0x20AC], [97]] =
+    [[97], [98], [0xFE, 0xFF, 0, 97, 0, 233], [0xFE, 0xFF, 0x20, 0xAC]] := by decide
+
+/-! ## The `/EmbeddedFiles` name array -/
+
+open Wp.PdfNames in
+/-- **embedded_files_sorted_partial**: the `/Names` array of `/EmbeddedFiles` lists exactly the attachments given (a
+permutation), and when no file name holds a byte at or below `)` (blank `!` `"` `#` `$` `%` `&` `'` `(` `)` and control
+characters) nor a backslash, its keys are sorted in the lexical byte order of a name tree (PDF 32000-1 7.9.6).
+
+Full statement (sorted for *all* file names): **false of the current code** — `Witness.embedded_files_unsorted`: the sort
+key is the serialised string `(name)` with its delimiters and escapes, so `a b` sorts before `a` and `a(` after `aA`
+(known finding `embedded-files-sorted-by-serialised-key`). -/
+theorem embedded_files_sorted_partial (names : List (List Nat)) :
+    (embeddedKeys names).Perm names ∧
+    ((∀ n ∈ names, plainName n = true) → sortedBy lexLe (embeddedKeys names) = true) := by
+  refine ⟨pySortedBy_perm litData names, ?_⟩
+  intro hp
+  apply sortedBy_of_map_litData
+  · intro x hx
+    exact hp x ((pySortedBy_perm litData names).mem_iff.mp hx)
+  · unfold embeddedKeys
+    rw [map_pySortedBy]
+    exact pySorted_sorted _
+
+open Wp.PdfNames in
+/-- Non-vacuity: `b.txt`, `a.txt`, `a-1.txt` are plain names; the keys come out sorted. -/
+example : (∀ n ∈ [[98, 46, 116, 120, 116], [97, 46, 116, 120, 116], [97, 45, 49, 46, 116, 120, 116]],
+      plainName n = true) ∧
+    embeddedKeys [[98, 46, 116, 120, 116], [97, 46, 116, 120, 116], [97, 45, 49, 46, 116, 120, 116]] =
+      [[97, 45, 49, 46, 116, 120, 116], [97, 46, 116, 120, 116], [98, 46, 116, 120, 116]] := by decide
 
 end Wp.C16
